@@ -556,9 +556,25 @@ def extract_block(fdef, spec, params):
     if len(hits) != 1:
         raise StaleContract(f"block anchor {spec['first']!r}: {len(hits)} matches in {fdef.name}")
     stmts, k = hits[0]
-    body = stmts[k:k + spec["count"]]
-    if len(body) != spec["count"]:
-        raise StaleContract("block shorter than declared")
+    if "until" in spec:
+        # the block ends just BEFORE the first later statement whose first source line is `until` (that statement is not part of it)
+        want_until = _norm(spec["until"])
+        ends = [m for m in range(k + 1, len(stmts)) if _norm(ast.unparse(stmts[m]).splitlines()[0]) == want_until]
+        if not ends:
+            raise StaleContract(f"block end anchor {spec['until']!r} not found after {spec['first']!r} in {fdef.name}")
+        body = stmts[k:ends[0]]
+    elif "last" in spec:
+        # the block ends with the first later statement (same statement list) whose first source line is `last`: statements added or
+        # removed INSIDE the block (temporaries) keep it one block
+        want_last = _norm(spec["last"])
+        ends = [m for m in range(k, len(stmts)) if _norm(ast.unparse(stmts[m]).splitlines()[0]) == want_last]
+        if not ends:
+            raise StaleContract(f"block end anchor {spec['last']!r} not found after {spec['first']!r} in {fdef.name}")
+        body = stmts[k:ends[0] + 1]
+    else:
+        body = stmts[k:k + spec["count"]]
+        if len(body) != spec["count"]:
+            raise StaleContract("block shorter than declared")
     args = ast.arguments(posonlyargs=[], args=[ast.arg(arg=p) for p in params], kwonlyargs=[], kw_defaults=[], defaults=[])
     fn = ast.FunctionDef(name=fdef.name + "#block", args=args, body=body, decorator_list=[], lineno=body[0].lineno,
                          col_offset=0, end_lineno=body[-1].end_lineno)
